@@ -37,7 +37,7 @@ fn part_a(ctx: &Ctx, maxlen: usize) -> Acc {
     let penv: Vec<Envelope> = pool.iter().map(|(_, m)| bind::build_route(m, if m.encode().is_some() { bind::Route::Decode } else { bind::Route::Envelopes(0) })).collect();
     let subjects: Vec<M> = vec![t("a"), M::Leaf(V::U(1)), M::Known(1), M::Wrapped(Box::new(t("a"))), a(t("sp"), t("so"))];
     let mut seqs = vec![]; for l in 1..=maxlen { seqs.extend(sequences(pool.len(), l)) }
-    subjects.par_iter().enumerate().map(|(si, sm)| {
+    subjects.par_iter().enumerate().with_max_len(1).map(|(si, sm)| {
         let mut acc = Acc::new();
         let s = bind::build(sm, 0);
         // group results by the set of pool indices used
